@@ -273,7 +273,7 @@ int main(int argc, char** argv) {
   }
   if (c.args.get("list") == "1") { for (auto& I : c.ifaces) { printf("%s (%s, %d-bit)\n", I.name.c_str(), I.style.c_str(), I.selector_bits); for (auto& m : I.methods) printf("  %s sel=%llx bound=%d subst=%d\n", m.name.c_str(), (unsigned long long)m.selector, m.bound, m.substitutions); } return 0; }
 
-  long per = c.args.geti("n", faults ? (c.thorough ? 400 : 60) : (c.thorough ? 40000 : 8000));
+  long per = c.args.geti("n", faults ? (c.thorough ? 400 : 60) : (c.thorough ? 40000 : 20000));
   for (size_t ii = 0; ii < c.ifaces.size(); ii++) {
     if ((int)(ii % (size_t)c.args.nshards) != c.args.shard) continue;
     std::string unit = fmt("prop=%s iface=%zu", c.args.prop.c_str(), ii);
